@@ -20,6 +20,9 @@ def check(ctx):
     tr = os.path.join(ctx.scratch, "c12_live.ndjson")
     rc, err, events = lc.run_live(ctx, ["live-c12", 16 if thorough else 8, 12 if thorough else 5, tr], timeout=1800)
     lc.crash_check(ctx, rc, err, "live-c12")
+    for e in events:
+        if e["ev"] == "cmd_stranded":
+            ctx.violation("caller-stranded", "SendActiveMessage(k=%s) had not returned 4 s after its time-out" % e.get("k"), {"kind": "live", "event": e})
     conns = lc.split_conns(events)
     lc.trace_conn(ctx, conns, "c12")
     # serial wrap: the stale timer of an answered request must not complete a new request with the same serial
